@@ -102,10 +102,10 @@ From Coq Require Import QArith Qabs Qcanon.
 
 (* sqrt rounded down to a multiple of 2^-64 *)
 Definition sqrtQ (q : Q) : Q := (Z.sqrt ((Qnum q * 2 ^ 128) / Zpos (Qden q)) # (2 ^ 64))%Q.
+Definition Qltb (a b : Q) : bool := if Qlt_le_dec a b then true else false.
 Definition closeQ (atol rtol : Q) (q qold : Qc) : bool :=
-  (Qlt_le_dec 0 atol || Qlt_le_dec 0 rtol) &&
-  (let a := sqrtQ (this q) in let b := sqrtQ (this qold) in
-   if Qlt_le_dec (atol + rtol * b) (Qabs (a - b)) then false else true).
+  (Qltb 0 atol || Qltb 0 rtol) &&
+  (let a := sqrtQ (this q) in let b := sqrtQ (this qold) in negb (Qltb (atol + rtol * b) (Qabs (a - b)))).
 
 Definition Qc_max (a b : Qc) : Qc := if Qc_ltb a b then b else a.
 
